@@ -2532,7 +2532,13 @@ pub mod verif_hooks_parser {
     use super::*;
 
     pub fn directive_passes(tokens: &[RawToken]) -> Vec<Vec<usize>> {
-        DirectiveTree::parse(tokens).passes().collect()
+        // the tree is a recursive type: leaking it keeps its drop glue out of the encoding
+        let mut passes = std::mem::ManuallyDrop::new(DirectiveTree::parse(tokens).passes());
+        let mut out = Vec::new();
+        while let Some(pass) = passes.next() {
+            out.push(pass);
+        }
+        out
     }
 
     pub fn parse_file(tokens: &mut [RawToken]) -> Vec<LogicalLine> {
